@@ -195,6 +195,7 @@ func Version(version string) OptionFn {
 func ExtendTypes(fn func(*pgtype.Map)) OptionFn {
 	return func(srv *Server) error {
 		fn(srv.types)
+		srv.extensions = append(srv.extensions, fn)
 		return nil
 	}
 }
